@@ -1,7 +1,8 @@
 ------------------------------ MODULE Trace_Url ------------------------------
 (* url {cfg, ru, rule_norm, m, norms, locs, idem}: a rule built from URL number ru of the universe,
    matched against a request for every URL v of the universe:
-     m[v]      the rule matched;  norms[v] the request's matching form;  locs[v] the Location header
+     m[v]      the rule matched;  norms[v] the request's matching form;  locs[v] the Location header;
+     clocs[v]  the Location header of a catch-all rule /@rest -> /n/@rest on the same request
      idem[v]   <<rebuild(rebuild(q)) = rebuild(q), match after rebuild>>
    classes (C09): url_match_wrong, marketing_off_request_not_normalised (known), case_fold_after_sort,
                   marketing_params_forwarding, rebuild_not_idempotent                         *)
@@ -24,6 +25,12 @@ PairVerdict(e, c, r, cr, rf, i) ==
   THEN (IF e.m[i] = (rf = ReqForm(v, c)) THEN DeviationClass(r, v, c) ELSE "url_match_wrong")
   ELSE IF e.m[i] /\ e.locs[i] # "/t" \o (IF SkippedParams(v, c) = <<>> THEN "" ELSE "?" \o JoinStr(SkippedParams(v, c), 1)) THEN "marketing_params_forwarding"
   ELSE IF ~(e.idem[i][1] /\ e.idem[i][2] = e.m[i]) THEN "rebuild_not_idempotent"
+  \* the catch-all rule /@rest -> /n/@rest: the target is the request's matching form, the forwarded parameters follow
+  \* with the separator that target needs
+  \* (captures keep the letter case the client sent: the form without case folding)
+  ELSE IF e.clocs[i] # "/n" \o JoinStr(ReqForm(v, [c EXCEPT !.icase = FALSE]), 1) \o (IF SkippedParams(v, c) = <<>> THEN ""
+                                               ELSE (IF "?" \in ToSet(ReqForm(v, c)) THEN "&" ELSE "?") \o JoinStr(SkippedParams(v, c), 1))
+       THEN "marketing_params_forwarding"
   ELSE ""
 PairDrift(e, c, r, rf, i) ==
   LET v == Univ[i] f == ReqForm(v, c) IN e.norms[i] # JoinStr(f, 1) \/ e.m[i] # (rf = f)
